@@ -464,7 +464,7 @@ def trace_event_counts(rep, path):
 
 
 def record_and_validate(rep, cols, nkeys, nvals, steps, seed, crash=0, label="", small=False, cursor=0, dumps=False,
-                        boundary=False, steady=0, growth_crash=False):
+                        boundary=False, steady=0, growth_crash=False, powerloss=0):
     out = os.path.join(vcore.scratch(), "trace_%s.ndjson" % label)
     args = {"out": out, "cols": json.dumps(cols), "nkeys": nkeys, "nvals": nvals, "steps": steps, "seed": seed}
     if cursor:
@@ -479,6 +479,10 @@ def record_and_validate(rep, cols, nkeys, nvals, steps, seed, crash=0, label="",
         args["crash"] = crash
     if small:
         args["small"] = True
+    if powerloss:
+        # crash images cut down to what a power loss may leave (harness/src/common.rs DurableState): every table /
+        # index file either current or as at its last msync, every log file cut between synced and current length
+        args["powerloss"] = powerloss
     if growth_crash:
         # scripted prefix: growth, removal of a key still indexed by the old generation, reindex to its end,
         # crash image right after the old index file was unlinked (see harness/src/record.rs)
@@ -494,6 +498,9 @@ def record_and_validate(rep, cols, nkeys, nvals, steps, seed, crash=0, label="",
                          initcid=summary.get("init_cid", 0))
     trace_event_counts(rep, out)
     res["init_rid"], res["init_cid"] = summary.get("init_rid", 1), summary.get("init_cid", 0)
+    for k in ("powerloss_images", "powerloss_images_with_data_dropped"):
+        if summary.get(k):
+            rep.extra[k] = rep.extra.get(k, 0) + summary[k]
     rep.nontrivial.add("trace:%s:%d" % (label, seed))
     if len(rep.samples) < 4:
         with open(out) as f:
@@ -802,6 +809,18 @@ def c12(tier):
     for j in range(ntr):
         record_and_validate(rep, colsets[j % 3], 10, 4, 800 if thorough else 300, SEED * 733 + j, crash=3,
                             label="c12t%d" % j, small=(j % 2 == 0))
+    # power-loss IMAGES: the crash image is cut down to what stable storage may hold (unsynced log tail gone or torn,
+    # table / index files as at their last msync in any combination); the recovered state must still be a prefix
+    # that contains every synced record
+    npl = 10 if thorough else 3
+    plsets = colsets + [[{"kind": "hash", "uniform": True, "collide": True}]]
+    for j in range(npl):
+        cs = plsets[j % len(plsets)]
+        big = cs[0].get("collide")
+        record_and_validate(rep, cs, 80 if big else 10, 3 if big else 4, 900 if thorough else 400, SEED * 739 + j, crash=5,
+                            powerloss=70, label="c12pl%d" % j, small=True, growth_crash=bool(big))
+    if rep.extra.get("powerloss_images_with_data_dropped", 0) < 3:
+        raise ToolError("power-loss images dropped no unsynced data (%s): vacuous" % rep.extra.get("powerloss_images_with_data_dropped"))
     nmt = 8 if thorough else 2
     for j in range(nmt):
         record_mt_and_validate(rep, colsets[j % 3], 6, 150 if thorough else 60, SEED * 53 + j, label="c12mt%d" % j,
